@@ -182,5 +182,17 @@ def explore(ctx):
             lines.append(close_race(rng, "r%d" % n)); n += 1
         for _ in range({"quick": 60, "thorough": 600, "search": 120}[tier]):
             lines.append(read_fault(rng, "t%d" % n)); n += 1
-    triples, tie = C.run_both(ctx, "TestVerifScn", lines, go_timeout=1500)
+    scn_lines = [l for l in lines if not l.startswith("e2e ")]
+    triples, tie = C.run_both(ctx, "TestVerifScn", scn_lines, go_timeout=1500) if scn_lines else ([], [])
+    if not ctx.get("replay") or any(l.startswith("e2e ") for l in lines):
+        # both ends being the package: plain / compressed / plain calls naming an unregistered protocol or method
+        e2e = [l for l in lines if l.startswith("e2e ")]
+        if not ctx.get("replay"):
+            for k in range({"quick": 24, "thorough": 300, "search": 60}[tier]):
+                arg = rng.choice(["-", "n", mp.vtext(mp.gen_value(rng, 2)), mp.vtext([1, mp.gen_value(rng, 1)])])
+                e2e.append("e2e e%d ctype=%d arg=%s res=- err=- method=%s" % (k, rng.choice([1, 2, 1, 2, 3, 0]), arg, rng.choice(["missing", "noproto"])))
+        t2, tie2 = C.run_both(ctx, "TestVerifC06", e2e, go_timeout=900)
+        triples += t2
+        tie += tie2
+        lines = scn_lines + e2e
     return dict(verdicts=triples, tie=tie, stats=dict(scenarios=len(lines)))
